@@ -690,7 +690,7 @@ class C19(Plan):
         g = Gen(seed)
 
         def fam(c, N, sz):
-            I = sorted({0, 1, 2, sz - 1 if sz else 0, sz, sz + 1, N - 1, N, MAX - 1, MAX} & set(range(0, 2**64)))
+            I = sorted(x for x in {0, 1, 2, sz - 1 if sz else 0, sz, sz + 1, N - 1, N, MAX - 1, MAX} if 0 <= x < 2**64)
             out = fam_push(c, N, sz) + fam_pop(c, N, sz)
             for i in I:
                 out += ["remove %d" % i, "swap_remove_back %d" % i, "swap_remove_front %d" % i,
